@@ -240,10 +240,22 @@ void defineArg(Handler &h, Pool &p, const Config &cfg, const ArgDef &a) {
   if (a.format == 1) t->addFormat(cpa::uppercase());
   if (a.format == 2) t->addFormat(cpa::lowercase());
   for (auto &pf : a.posFormats) t->addFormatPos(pf.first, pf.second == 1 ? cpa::uppercase() : cpa::lowercase());
-  for (auto &ct : a.constraints) {
-    const std::string &other = cfg.args[ct.second].spec;
-    if (ct.first == CT_REQUIRES) t->addConstraint(cpa::requiresArg(other));
-    else t->addConstraint(cpa::excludes(other));
+  // constraints as written in the definition: key lists ("d;c"), the other argument named by its complete specification,
+  // its short key or its long key
+  std::vector<std::pair<int, std::string>> written;
+  for (size_t ci = 0; ci < a.constraints.size(); ++ci) {
+    const auto &ct = a.constraints[ci];
+    const ArgDef &o = cfg.args[ct.second];
+    const int style = ci < a.ctStyle.size() ? a.ctStyle[ci] : 0;
+    std::string name = o.spec;
+    if ((style & 3) == 1 && o.shortKey) name = std::string(1, o.shortKey);
+    if ((style & 3) == 2 && !o.longKey.empty()) name = o.longKey;
+    if ((style & 4) && !written.empty() && written.back().first == ct.first) written.back().second += ";" + name;
+    else written.push_back({ct.first, name});
+  }
+  for (auto &wc : written) {
+    if (wc.first == CT_REQUIRES) t->addConstraint(cpa::requiresArg(wc.second));
+    else t->addConstraint(cpa::excludes(wc.second));
   }
   (void)kind;
 }
